@@ -240,7 +240,10 @@ def conclude(prop, tier, seed, specs, results, metas, crashes, nat, group_wall, 
     # evidence ---------------------------------------------------------
     level = getattr(mod, "LEVEL", "other")
     known_names = {r["name"] for _, r in knowns}
-    pg = [r for r in results if r["kind"] in ("P", "G") and r["name"] not in known_names]
+    undecided_names = {r["name"] for r in undecided}
+    # obligations counted for the proof-level record: attempted P/G obligations, minus known findings (reported separately) and
+    # minus never-locked undecided ones (reported under coverage.undecided_unlocked: attempted, not discharged, not claimed)
+    pg = [r for r in results if r["kind"] in ("P", "G") and r["name"] not in known_names and r["name"] not in undecided_names]
     bb = [r for r in results if r["kind"] == "B"]
     proved = [r for r in pg if r["status"] == "proved"]
     be_count, be_time = {}, {}
